@@ -2200,7 +2200,7 @@ theorem tcValueOrdered_iff_walk (d : Desc) (db : List Col) :
     omega
   · simp only [hlt, if_false]
 
-/-! ### ordered rows: the deserialize walk and the round trip -/
+/-! ### the ordered UDT deserialize walk on ARBITRARY cells -/
 
 /-- documented result of ordered row deserialization: the i-th non-skipped field takes the i-th cell
 (`default_when_null` turning null into the default), skipped fields are `Default::default()`;
@@ -2215,6 +2215,201 @@ def ordRowExpected : List Field → List Cell → Option (List Val)
         match deValD f x with
         | none => none
         | some v => (ordRowExpected fs xs).map (v :: ·)
+
+
+/-- documented result of the ordered UDT deserialize walk over the (field, cell) items `UdtIterator` yields (a
+field beyond the serialized cells counts as null): a non-skipped field takes the head item when the names
+agree (`skip_name_checks`: always) — `default_when_null` turning null into the default, a null on a
+non-`Option` field failing —, otherwise it is passed over and defaulted; `none` = some taken cell does not
+deserialize -/
+def ordUdtExpected (skipNames : Bool) : List Field → List (Col × Cell) → Option (List Val)
+  | [], _ => some []
+  | f :: fs, items =>
+    if f.skip then (ordUdtExpected skipNames fs items).map (defaultVal f :: ·)
+    else match items with
+      | [] => (ordUdtExpected skipNames fs []).map (defaultVal f :: ·)
+      | (c, x) :: rest =>
+        if skipNames || f.col == c.name then
+          match deValD f x with
+          | none => none
+          | some v => (ordUdtExpected skipNames fs rest).map (v :: ·)
+        else (ordUdtExpected skipNames fs ((c, x) :: rest)).map (defaultVal f :: ·)
+
+private theorem dvDeOrd_spec_walk (sn forbid : Bool) (fields : List Field) : ∀ (items : List (Col × Cell)),
+    dvTcOrd sn forbid (fields.filter (fun f => !f.skip)) (items.map (·.1)) = .ok () →
+    dvDeOrd sn fields items =
+      match ordUdtExpected sn fields items with
+      | some vs => .ok vs
+      | none => .error .dvFieldDeserFailed := by
+  induction fields with
+  | nil => intro items _; rfl
+  | cons f fs ih =>
+    intro items htc
+    unfold dvDeOrd ordUdtExpected
+    by_cases hs : f.skip = true
+    · rw [List.filter_cons] at htc
+      simp only [hs, Bool.not_true, Bool.false_eq_true, if_false] at htc
+      simp only [hs, if_true, ih items htc]
+      cases ordUdtExpected sn fs items <;> rfl
+    · simp only [Bool.not_eq_true] at hs
+      rw [List.filter_cons] at htc
+      simp only [hs, Bool.not_false, if_true] at htc
+      simp only [hs, Bool.false_eq_true, if_false]
+      cases items with
+      | nil =>
+        simp only [List.map_nil] at htc
+        unfold dvTcOrd at htc
+        split at htc
+        · rename_i ha
+          simp only [ha, if_true, ih [] (by simpa using htc)]
+          cases ordUdtExpected sn fs [] <;> rfl
+        · cases htc
+      | cons it rest =>
+        obtain ⟨c, x⟩ := it
+        simp only [List.map_cons] at htc
+        unfold dvTcOrd at htc
+        simp only []
+        by_cases hn : (!sn && f.col != c.name) = true
+        · simp only [hn, if_true] at htc
+          have hn' : (sn || f.col == c.name) = false := by cases sn <;> simp_all
+          simp only [hn', Bool.false_eq_true, if_false]
+          split at htc
+          · rename_i ha
+            simp only [ha, if_true, ih ((c, x) :: rest) (by simpa using htc)]
+            cases ordUdtExpected sn fs ((c, x) :: rest) <;> rfl
+          · cases htc
+        · simp only [Bool.not_eq_true] at hn
+          simp only [hn, Bool.false_eq_true, if_false] at htc
+          have hn' : (sn || f.col == c.name) = true := by cases sn <;> simp_all
+          simp only [hn', if_true]
+          split at htc
+          · cases htc
+          · cases hd : deValD f x with
+            | none => rfl
+            | some v =>
+              simp only [ih rest htc]
+              cases ordUdtExpected sn fs rest <;> rfl
+
+/-- `dvDeOrd_spec`: after a successful ordered UDT type check, deserialization of ARBITRARY cells (nulls
+anywhere, fewer cells than fields, more cells than fields) follows the lock-step walk `ordUdtExpected` and fails
+— with `FieldDeserializationFailed` — exactly when a taken cell does not deserialize; none of the generated
+`panic!`s ("field name mismatch", "too few CQL UDT fields") is reachable. -/
+theorem dvDeOrd_spec (d : Desc) (db : List Col) (cells : List Cell) (htc : tcValueOrdered d db = .ok ()) :
+    deValueOrdered d db cells =
+      match ordUdtExpected d.skipNameChecks d.fields (udtItems db cells) with
+      | some vs => .ok vs
+      | none => .error .dvFieldDeserFailed := by
+  unfold deValueOrdered
+  apply dvDeOrd_spec_walk d.skipNameChecks d.forbidExcess
+  rw [udtItems_fst]
+  exact (tcValueOrdered_iff_walk d db).mp htc
+
+/-- in the declared order the walk is purely positional: when the database lists exactly the non-skipped
+fields' names in declared order, the i-th non-skipped field gets the i-th cell — a cell missing from the
+serialized form counting as null (so: `default_when_null` ↦ default, `Option` ↦ `None`, otherwise an error) —
+which is the ordered-ROW rule `ordRowExpected` on the cells padded with nulls. -/
+theorem ordUdtExpected_declared (sn : Bool) (fields : List Field) : ∀ (items : List (Col × Cell)),
+    items.map (·.1.name) = (fields.filter (fun f => !f.skip)).map Field.col →
+    ordUdtExpected sn fields items = ordRowExpected fields (items.map (·.2)) := by
+  induction fields with
+  | nil => intro items _; rfl
+  | cons f fs ih =>
+    intro items h
+    unfold ordUdtExpected ordRowExpected
+    by_cases hs : f.skip = true
+    · rw [List.filter_cons] at h
+      simp only [hs, Bool.not_true, Bool.false_eq_true, if_false] at h
+      simp only [hs, if_true, ih items h]
+    · simp only [Bool.not_eq_true] at hs
+      rw [List.filter_cons] at h
+      simp only [hs, Bool.not_false, if_true, List.map_cons] at h
+      simp only [hs, Bool.false_eq_true, if_false]
+      cases items with
+      | nil => simp at h
+      | cons it rest =>
+        obtain ⟨c, x⟩ := it
+        simp only [List.map_cons, List.cons.injEq] at h
+        have hn : (sn || f.col == c.name) = true := by simp [h.1]
+        simp only [hn, if_true, List.map_cons, ih rest h.2]
+
+/-! ### `ordered_roundtrip`, model-independent form -/
+
+/-- when the database lists exactly the declared (non-skipped) names in declared order (plus any excess
+suffix), what comes back through the ordered flavor is the identity up to skipped fields -/
+theorem ordExpected_full (sn : Bool) (fvs : List (Field × Val)) : ∀ (db : List Col) (rest : List Col),
+    names db = (fvs.filter (fun p => !p.1.skip)).map (·.1.col) →
+    ordExpected sn fvs (db ++ rest) = fvs.map (fun p => if p.1.skip then defaultVal p.1 else p.2) := by
+  induction fvs with
+  | nil => intro db rest _; rfl
+  | cons p fvs ih =>
+    intro db rest h
+    obtain ⟨f, v⟩ := p
+    unfold ordExpected
+    by_cases hs : f.skip = true
+    · rw [List.filter_cons] at h
+      simp only [hs, Bool.not_true, Bool.false_eq_true, if_false] at h
+      simp only [hs, if_true, List.map_cons, ih db rest h]
+    · simp only [Bool.not_eq_true] at hs
+      rw [List.filter_cons] at h
+      simp only [hs, Bool.not_false, if_true, List.map_cons] at h
+      cases db with
+      | nil => simp [names] at h
+      | cons c cs =>
+        simp only [names, List.map_cons, List.cons.injEq] at h
+        simp only [hs, Bool.false_eq_true, if_false, List.cons_append, List.map_cons]
+        have : (sn || c.name == f.col) = true := by simp [h.1]
+        simp only [this, if_true]
+        rw [ih cs rest h.2]
+
+/-- `ordered_roundtrip_declared`: for the ordered flavor, if the database lists exactly the declared names in
+declared order, value → bytes → value is the identity (skipped fields ↦ default) -/
+theorem ordered_roundtrip_declared (d : Desc) (fvs : List (Field × Val)) (db : List Col) (cells : List Cell)
+    (hfl : d.flavor = .ordered) (hfields : d.fields = fvs.map (·.1))
+    (hwt : ∀ p ∈ fvs, WellTyped p.1 p.2)
+    (hnames : names db = (fvs.filter (fun p => !p.1.skip)).map (·.1.col))
+    (hser : serValue d fvs db = .ok cells) (htc : tcValueOrdered d db = .ok ()) :
+    deserValue d db cells = .ok (fvs.map (fun p => if p.1.skip then defaultVal p.1 else p.2)) := by
+  rw [ordered_roundtrip d fvs db cells hfl hfields hwt hser htc]
+  have := ordExpected_full d.skipNameChecks fvs db [] hnames
+  rw [List.append_nil] at this
+  rw [this]
+
+/-- an ordered row with fewer cells than columns is never accepted either -/
+theorem deRowOrdered_short (sn : Bool) (fields : List Field) : ∀ (db : List Col) (cells : List Cell),
+    db.length = (fields.filter (fun f => !f.skip)).length → cells.length < db.length →
+    ∃ x, drDeOrd sn fields (rowItems db cells) = .error x := by
+  induction fields with
+  | nil => intro db cells h1 h2; simp only [List.filter_nil, List.length_nil] at h1; omega
+  | cons f fs ih =>
+    intro db cells h1 h2
+    unfold drDeOrd
+    by_cases hs : f.skip = true
+    · rw [List.filter_cons] at h1
+      simp only [hs, Bool.not_true, Bool.false_eq_true, if_false] at h1
+      simp only [hs, if_true]
+      obtain ⟨x, hx⟩ := ih db cells h1 h2
+      exact ⟨x, by rw [hx]⟩
+    · simp only [Bool.not_eq_true] at hs
+      rw [List.filter_cons] at h1
+      simp only [hs, Bool.not_false, if_true, List.length_cons] at h1
+      simp only [hs, Bool.false_eq_true, if_false]
+      cases db with
+      | nil => simp at h1
+      | cons c cs =>
+        cases cells with
+        | nil => exact ⟨_, rfl⟩
+        | cons v vs =>
+          simp only [rowItems]
+          split
+          · exact ⟨_, rfl⟩
+          · cases deValD f v with
+            | none => exact ⟨_, rfl⟩
+            | some w =>
+              simp only []
+              obtain ⟨x, hx⟩ := ih cs vs (by simpa using h1) (by simpa using h2)
+              exact ⟨x, by rw [hx]⟩
+
+/-! ### ordered rows: the deserialize walk and the round trip -/
 
 private theorem drDeOrd_spec (sn : Bool) (fields : List Field) : ∀ (db : List Col) (cells : List Cell),
     drTcOrd sn (fields.filter (fun f => !f.skip)) db = .ok () →
@@ -2703,6 +2898,16 @@ example : errOf (serRowByNameN s07 [⟨"b", .int⟩]) = some .srNoColumnWithName
 example : errOf (serRowByName (flatLeavesList s07) [⟨"b", .int⟩]) = some .srNoColumnWithName := by decide +kernel
 example : okOpt (serRowByNameN s07 [⟨"y", .text⟩, ⟨"b", .int⟩, ⟨"x", .int⟩]) = some [some [104], v1, v2] := by
   decide +kernel
+/-- `ordExpected` is not the identity in general: a passed-over `allow_missing` field comes back defaulted -/
+example : ordExpected false [(fA, v1), (fB, v2)] [⟨"b", .int⟩] = [some [0, 0, 0, 0], v2] := by decide +kernel
+/-- ordered UDT walk on arbitrary cells: `c` (`Option`, `default_when_null`) beyond the serialized cells ↦ `None`;
+a null on the non-`Option` `b` is an error -/
+example : okOpt (deserValue ⟨.ordered, false, false, [fB, fC]⟩ [⟨"b", .int⟩, ⟨"cc", .text⟩] [v2]) = some [v2, none] := by
+  decide +kernel
+example : errOf (deserValue ⟨.ordered, false, false, [fB, fC]⟩ [⟨"b", .int⟩, ⟨"cc", .text⟩] [none, some [104]])
+    = some .dvFieldDeserFailed := by decide +kernel
+/-- the whole UDT value null is rejected after the type check -/
+example : errOf (deserValueOpt dAll [⟨"b", .int⟩, ⟨"cc", .text⟩] none) = some .dvNullUdt := by decide +kernel
 /-- ordered row flavor and `skip_name_checks`: positional binding -/
 example : okOpt (srOrdered true [(fB, v2), (fX, v1)] [⟨"zz", .int⟩, ⟨"b", .int⟩]) = some [v2, v1] := by decide +kernel
 example : okOpt (deserRow ⟨.byName, false, false, [fB, fX]⟩ [⟨"x", .int⟩, ⟨"b", .int⟩] [v1, v2]) = some [v2, v1] := by
